@@ -28,6 +28,7 @@ type Program struct {
 	pkgDirs     map[string]string
 	repo        string
 	loadSecs    float64
+	reLits      map[string]string
 }
 
 var pikePkgs = []string{"./cache", "./server", "./location", "./config", "./compress", "./upstream", "./util", "./store"}
@@ -139,6 +140,7 @@ func loadProgram(repo, libdir string) (*Program, error) {
 		return nil, err
 	}
 	P.spec = sp
+	P.reLits = P.regexLiterals()
 	return P, nil
 }
 
@@ -342,15 +344,15 @@ func (g *gen) assignLockSites(fn *ssa.Function) {
 
 func (g *gen) addAxioms(st *State) {
 	for _, ax := range g.P.spec.Axioms {
-		if ax.Strings != g.c.strMode && ax.Strings {
-			continue
-		}
 		if !g.axiomRelevant(ax) {
 			continue
 		}
 		e := &env{g: g, vars: map[string]binding{}, st: st, old: st, pkgPath: ax.PkgPath, imports: ax.Imports}
 		t, err := e.trBool(ax.E)
 		if err != nil {
+			if ax.Strings != g.c.strMode {
+				continue // does not translate in this string mode
+			}
 			g.errorf("axiom %s (%s): %v", ax.Name, ax.File, err)
 			continue
 		}
